@@ -1,4 +1,5 @@
 import SST.Drv.Rio
+import SST.Drv.SkipPq
 open SST SST.Drv
 
 def handle (line : String) : String :=
@@ -11,6 +12,8 @@ def handle (line : String) : String :=
     | "rio.read" => rioRead a
     | "rio.readat" => rioReadAt a
     | "rio.seeknext" => rioSeekNext a
+    | "skip.run" => skipRun a
+    | "pq.run" => pqRun a
     | "ping" => "pong"
     | _ => "bad-op"
 
